@@ -229,14 +229,21 @@ base type and value, in order; unknown messages and unknown fields kept with the
 every developer field with its developer data index, number and value; a message of which nothing is left is left out.
 The arithmetic of the scaled mode is the code's (`Arith.so`; `C12_csv` for every (scale, offset) of the profile).
 
-What `csvUnambiguousB` asks (FitModel/CsvSpec.lean): no position in degrees; every file starts with its only file_id;
+With the degrees option a position (the 38 fields in semicircles: plain sint32 scalars, regenerated table `semicirclesOK`)
+is written as `ToDegrees(s)` and read back through `ToSemicircles`; that composite is the parameter `Arith.so.degrees`,
+taken to be the identity (`float64(s)·(180/2^31)` is exact — at most 37 significant bits —, the quotient by the same
+constant is exactly `s` again; float text as everywhere: ASSUMED, compared with the implementation on every run).
+
+What `csvUnambiguousB` asks (FitModel/CsvSpec.lean): every file starts with its only file_id;
 per message: number < 65536, field numbers distinct bytes, every field's value what the decoder produces for the field's
 base type (`fieldOK`: strings within the safe alphabet, arrays non-empty, a field without profile entry no one-element
 array) and in the decoder's normal form (`csvNorm v = v`: a `typedef.Bool` is 0, 1 or invalid), the fields flagged
 expanded EXACTLY the component targets of the fields present (the property's own condition, as the decoder produces
 it); per file: field descriptions with non-empty names that are not "unknown…", not a sub-field name of the profile,
-without separator, pairwise distinct, (developer data index, field number) pairwise distinct; every developer field
-described EARLIER in the same file, its name no native field name of its message, its value of the described base type.
+pairwise distinct, (developer data index, field number) pairwise distinct; every developer field
+described EARLIER in the same file, its name no native field name of its message, its value of the described base type;
+for the encoder's gate (`C19_roundtrip_convert`): something of every file comes back, and the developer data index of every
+developer field is announced by a developer_data_id message that comes back earlier in the file.
 
 Proof: cell by cell (`cell_rt`: field / placeholder / passed over), `revertAll` over any number of placeholders
 (`revertAll_pending`: the reference fields of the sub-field maps are never placeholders — regenerated table, `subRefsOK`),
